@@ -1796,7 +1796,7 @@ trait RecordD {
             let ghost ps0 = rset.positions@;
             let ghost cap_before = self.buf_reader.cap();
             proof { lemma_count_lf_mono(self.f(), 0, self.position.byte as int); }
-//@after /Err\(e\) => \{/ nth=0
+//@after /Err\(e\) => \{/ nth=0 optional=1
                         proof { if self.buf_reader.cap() > cap_before && n_records is None && old(self).clean() {
                                 grow_at = k0;
                                 assert(fa_nofit(old(self).f(), fa_start(old(self).f(), old(self).cursor(), k0), old(self).buf_reader.cap() as int));
